@@ -691,6 +691,15 @@ class BinaryInstruction(Instruction):
                 OpCode.VECTOR_MUL_SCALAR, returnType, v1, v2
             )
         elif (
+            operation == op.Operation.MUL
+            and v1.Type.IsScalar()
+            and v2.Type.IsVector()
+        ):
+            # scalar * vector is vector * scalar with the operands swapped
+            return BinaryInstruction(
+                OpCode.VECTOR_MUL_SCALAR, returnType, v2, v1
+            )
+        elif (
             operation == op.Operation.DIV
             and v1.Type.IsVector()
             and v2.Type.IsScalar()
